@@ -10,6 +10,7 @@ import warnings
 
 from ..ctx import Workload
 from ..gen.objects import ObjGen, optional_pairs
+from ..gen import prime
 from ..gen import values as V
 from ..oracles import compare, validator
 from ..oracles import paths as pathor
@@ -130,6 +131,8 @@ def judge(ctx, o, version, embedding="plain", tags=()):
         # histories: the same content was first used leniently, under the other version, and with a custom property added;
         # none of that may influence the strict parse that follows
         import stix2
+        # its literal identifiers / timestamps were first seen by other spec versions and other precision contexts ...
+        ctx.count("priming_calls", prime.prime(o))
         for fn in (lambda: stix2.parse(text, allow_custom=True), lambda: stix2.parse(json.loads(text), allow_custom=True, version="2.0" if version == "2.1" else "2.1"),
                    lambda: stix2.parse(dict(json.loads(text), x_history_prop=1), allow_custom=True)):
             try:
@@ -356,9 +359,9 @@ def wl_sco20(ctx, rng, i):
 
 
 WORKLOADS = [
-    Workload("sco20", wl_sco20, quick=lambda: len(SCO20) * 2, thorough=lambda: len(SCO20) * 60),
-    Workload("profiles", wl_profiles, quick=lambda: len(TYPES) * 32, thorough=lambda: len(TYPES) * 600),
-    Workload("pairs", wl_pairs, quick=lambda: len(PAIRS), thorough=lambda: len(PAIRS) * 4),
+    Workload("sco20", wl_sco20, quick=lambda: len(SCO20) * 2, thorough=lambda: len(SCO20) * 600),
+    Workload("profiles", wl_profiles, quick=lambda: len(TYPES) * 32, thorough=lambda: len(TYPES) * 6000),
+    Workload("pairs", wl_pairs, quick=lambda: len(PAIRS), thorough=lambda: len(PAIRS) * 40),
     Workload("vocab", wl_vocab, quick=lambda: len(VOCAB), thorough=lambda: len(VOCAB), exhaustive=True),
     Workload("boundary", wl_boundary, quick=lambda: len(BOUNDARY), thorough=lambda: len(BOUNDARY), exhaustive=True),
 ]
